@@ -18,7 +18,8 @@ PARTIAL = ["operand immutability and aliasing are heap facts: decided by snapsho
            "the documented float tolerance of __eq__ (atol 1e-8, numpy default rtol) is compared differentially"]
 RULE = ("random factors over a pool of 2-5 named variables (cards 1-4, label kinds int/str/permuted/shifted/tuple), "
         "every operand in a random axis order; non-trivial = result scope non-empty or operands share/nest variables; "
-        "distinct = distinct case JSON")
+        "distinct = distinct case JSON"
+        " Also: scopes of 9-11 variables, magnitudes 1e-30..1e9, factor_divide / factor_product functions, FactorDict arithmetic.")
 ASSUMPTIONS = ["numpy einsum / broadcasting are exercised, not verified"]
 BUDGET_QUICK = 60
 
